@@ -74,6 +74,15 @@ CHECKS = {
           "error positions compared with the extracted model, and the property checked directly on the implementation's output.", "DESIGN.md §6 C15"),
    note="Trusted: Coq kernel; extraction; glue (public Lexer API). C-locale character classes assumed.",
    technique="Coq proof (structural/fuelled recursion, prefix-position invariant) + extraction-based correspondence + direct positional oracle"),
+ "C17": dict(
+   level=("proof", "Coq theorems (axiom-free): a shot's table counts each scope exit once (a variable's counts sum to its number of exits, each "
+          "outcome to its occurrences), tables are well-formed, the aggregate is the entry-wise sum of the per-shot tables for any number of shots, "
+          "probabilities count/total lie in [0,1] and sum to 1 (over Q), an outcome is the index-ordered bit string or '?', @shots wins over "
+          "--shots, and the echo policy. Tied by running the real CLI with injected draws on generated programs (tracked locals, loop- and "
+          "helper-scoped tracked values, tracked object fields, partial/re-measured histories, every flag/annotation/echo combination) and "
+          "comparing its table, shot count and echo line count with the extracted model.", "DESIGN.md §6 C17"),
+   note="Trusted: Coq kernel; extraction; glue; hook H2 (draw file). --echo=none read as documented (always suppress).",
+   technique="Coq proof (finite-map/table algebra, Q arithmetic) + extraction-based correspondence through the real CLI"),
  "C20": dict(
    level=("proof", "13 Coq theorems (axiom-free) over a model of parseSemVer/compareSemVer/hasLatest/the --update decision/parseChecksum/"
           "the 72h notice throttle, for all strings, all checksums.txt contents and all invocation histories; the model is tied to "
